@@ -141,8 +141,57 @@ class Resolver:
         defs = self.cfg.defs_reaching(name, node)
         if not defs:
             return self._global(name)
+        ds = sorted(defs, key=lambda d: (d.node.id, d.path))
+        if len(ds) >= 2 and not any(d in self._stack for d in ds) and self._same_nesting(ds, node):
+            gated = self._gated(ds)
+            if gated is not None:
+                return gated
+        return phi([self._def_term(d) for d in ds])
 
-        return phi([self._def_term(d) for d in sorted(defs, key=lambda d: (d.node.id, d.path))])
+    def _same_nesting(self, ds: list[Def], node: Node) -> bool:
+        """All definitions and the use sit in the same loops (no value flows around a back edge between them)."""
+        key = lambda n: frozenset(h.id for h in self.cfg.enclosing_loops(n))  # noqa: E731
+        ks = {key(d.node) for d in ds if d.kind != "param"} or {frozenset()}
+        if any(d.kind == "param" for d in ds):
+            ks.add(frozenset())
+        return len(ks) == 1 and next(iter(ks)) <= key(node)
+
+    def _gated(self, ds: list[Def]) -> Term | None:
+        """Definitions made in the two branches of one `if` become a conditional expression on that test
+        (so `x = a if c else b` and `if c: x = a / else: x = b` resolve to the same term)."""
+        guards = {}
+        for d in ds:
+            guards[d] = {} if d.kind == "param" else {(gn.id, pol): (g, gn) for g, pol, gn in self.cfg.must_guards(d.node)}
+        all_tests: set[int] = set()
+        for d in ds:
+            all_tests |= {k[0] for k in guards[d]}
+        for tid in sorted(all_tests):
+            true_side = [d for d in ds if (tid, True) in guards[d]]
+            false_side = [d for d in ds if (tid, False) in guards[d]]
+            rest = [d for d in ds if d not in true_side and d not in false_side]
+            if rest and (bool(true_side) != bool(false_side)):
+                # default-then-override: `x = a` before the test, `x = b` under it
+                gn_ = guards[(true_side or false_side)[0]][(tid, bool(true_side))][1]
+                if all(self.cfg.dominates(d.node, gn_) for d in rest):
+                    if true_side:
+                        false_side = rest
+                    else:
+                        true_side = rest
+                    rest = []
+            if true_side and false_side and not rest:
+                key = (tid, True) if (tid, True) in guards[true_side[0]] else None
+                g, gn = guards[true_side[0]][key] if key else guards[false_side[0]][(tid, False)]
+                cond = self.term(g, gn)
+
+                def side(group: list[Def]) -> Term:
+                    if len(group) >= 2:
+                        inner = self._gated(group)
+                        if inner is not None:
+                            return inner
+                    return phi([self._def_term(d) for d in group])
+
+                return ("ifexp", cond, side(true_side), side(false_side))
+        return None
 
     def _def_term(self, d: Def) -> Term:
         if d in self._stack:
